@@ -20,7 +20,7 @@ type vMInteraction struct {
 	ann      bool
 	descr    bool
 	query    bool
-	request  int // 0 none, 1 body any, 2 body jsight, 3 headers + body any
+	request  int // 0 none, 1 body any, 2 body jsight, 3 headers + body any, 4 body any + headers (Body written first)
 	useTag   int // 0 no Tags directive, 1 Tags @t1, 2 Tags @t2
 	opID     bool
 	explicit bool // method context written with ( )
@@ -30,6 +30,9 @@ type vMInteraction struct {
 
 type vModel struct {
 	info, infoDescr bool
+	infoTitle       bool // INFO has a Title (else only Version / Description)
+	infoVersion     bool
+	rpc             int // 0 no JSON-RPC method; 1 Params+Result; 2 Params only; 3 Result + Description + Tags
 	server          bool
 	tag, tag2       bool
 	typ, typ2       bool
@@ -53,11 +56,12 @@ var vFeatIdx, vFeatMask, vFeatFixed, vFeatGroup int
 var vFeatGroups = [][]string{
 	nil,
 	{"tag", "tag2", "useTag0", "useTag1", "grouped", "urlTag", "path0", "path1"},
-	{"info", "infoDescr", "server", "server2", "typ", "typ2", "enum", "enum2", "tag", "tag2", "blockAnn"},
+	{"info", "infoDescr", "infoTitle", "infoVersion", "server", "server2", "typ", "typ2", "enum", "enum2", "tag", "blockAnn"},
 	{"nresp0", "swap0", "body0a", "hdr0a", "rann0a", "body0b", "hdr0b", "rann0b", "typ"},
 	{"ann0", "descr0", "query0", "request0", "opid0", "explicit0", "method0", "path0"},
 	{"grouped", "explicit0", "explicit1", "path0", "path1", "method0", "method1", "urlTag", "tag"},
 	{"nresp1", "swap1", "body1a", "hdr1a", "rann1a", "body1b", "hdr1b", "request1", "descr1"},
+	{"rpc", "tag", "tag2", "useTag0", "grouped", "urlTag", "path0", "path1", "blockAnn"},
 }
 
 func vFeatSymbolic(name string, i uint) bool {
@@ -94,6 +98,11 @@ func vModelSymbolic(n int) vModel {
 	vFeatIdx, vFeatMask, vFeatFixed, vFeatGroup = 0, vParam("mask", 0), vParam("fixed", 0), vParam("group", 0)
 	var m vModel
 	m.info, m.infoDescr = vFeatBool("info"), vFeatBool("infoDescr")
+	m.infoTitle, m.infoVersion = vFeatBool("infoTitle"), vFeatBool("infoVersion")
+	if !m.infoTitle && !m.infoVersion && !m.infoDescr {
+		m.infoTitle = true // an empty INFO is not a model
+	}
+	m.rpc = vFeatInt("rpc", 0, 3)
 	m.server, m.tag, m.typ, m.enum = vFeatBool("server"), vFeatBool("tag"), vFeatBool("typ"), vFeatBool("enum")
 	m.server2, m.tag2, m.typ2, m.enum2 = vFeatBool("server2"), vFeatBool("tag2"), vFeatBool("typ2"), vFeatBool("enum2")
 	m.blockAnn = vFeatBool("blockAnn")
@@ -103,7 +112,7 @@ func vModelSymbolic(n int) vModel {
 			method: vMMethods[vFeatInt("method"+id, 0, len(vMMethods)-1)],
 			path:   vMPaths[vFeatInt("path"+id, 0, len(vMPaths)-1)],
 			ann:    vFeatBool("ann" + id), descr: vFeatBool("descr" + id), query: vFeatBool("query" + id),
-			request: vFeatInt("request"+id, 0, 3), useTag: vFeatInt("useTag"+id, 0, 2), opID: vFeatBool("opid" + id),
+			request: vFeatInt("request"+id, 0, 4), useTag: vFeatInt("useTag"+id, 0, 2), opID: vFeatBool("opid" + id),
 			explicit: vFeatBool("explicit" + id), idx: i,
 		}
 		// dependent features are coerced (not assumed), so that every feature vector is a model
@@ -117,8 +126,8 @@ func vModelSymbolic(n int) vModel {
 		}
 		for r := 0; r < nr; r++ {
 			rid := id + string(rune('a'+r))
-			rs := vMResponse{code: codes[r], body: vFeatInt("body"+rid, 0, 2), headers: vFeatBool("hdr" + rid), ann: vFeatBool("rann" + rid)}
-			if !m.typ && rs.body == 1 {
+			rs := vMResponse{code: codes[r], body: vFeatInt("body"+rid, 0, 3), headers: vFeatBool("hdr" + rid), ann: vFeatBool("rann" + rid)}
+			if !m.typ && (rs.body == 1 || rs.body == 3) {
 				rs.body = 0
 			}
 			in.resp = append(in.resp, rs)
@@ -158,7 +167,13 @@ func vRender(m vModel) string {
 	var sb strings.Builder
 	sb.WriteString("JSIGHT 0.3\n")
 	if m.info {
-		sb.WriteString("INFO\n  Title \"The API\"\n  Version 1.2\n")
+		sb.WriteString("INFO\n")
+		if m.infoTitle {
+			sb.WriteString("  Title \"The API\"\n")
+		}
+		if m.infoVersion {
+			sb.WriteString("  Version 1.2\n")
+		}
 		if m.infoDescr {
 			sb.WriteString("  Description\n    About\n    the API\n")
 		}
@@ -179,7 +194,7 @@ func vRender(m vModel) string {
 		sb.WriteString("TYPE @ty" + m.annotation("a type") + "\n{\n  \"a\": 1\n}\n")
 	}
 	if m.typ2 {
-		sb.WriteString("TYPE @ty2 regex\n/z+/\n")
+		sb.WriteString("TYPE @ty2 regex" + m.annotation("re type") + "\n/z+/\n")
 	}
 	if m.enum {
 		sb.WriteString("ENUM @en\n[\"x\", \"y\"]\n")
@@ -219,6 +234,8 @@ func vRender(m vModel) string {
 			sb.WriteString(ci + "Request\n" + ci + "{\n" + ci + "  \"r\": true\n" + ci + "}\n")
 		case 3:
 			sb.WriteString(ci + "Request\n" + ci + "  Headers\n" + ci + "  {\n" + ci + "    \"X\": \"v\"\n" + ci + "  }\n" + ci + "  Body any\n")
+		case 4:
+			sb.WriteString(ci + "Request\n" + ci + "  Body any\n" + ci + "  Headers\n" + ci + "  {\n" + ci + "    \"X\": \"v\"\n" + ci + "  }\n")
 		}
 		for _, r := range in.resp {
 			l := ci + r.code
@@ -230,6 +247,10 @@ func vRender(m vModel) string {
 			case 1:
 				if !r.headers {
 					l += " @ty"
+				}
+			case 3:
+				if !r.headers {
+					l += " [@ty]"
 				}
 			}
 			if r.ann {
@@ -245,6 +266,8 @@ func vRender(m vModel) string {
 					sb.WriteString(ci + "  Body @ty\n")
 				case 2:
 					sb.WriteString(ci + "  Body\n" + ci + "  {\n" + ci + "    \"ok\": 1\n" + ci + "  }\n")
+				case 3:
+					sb.WriteString(ci + "  Body [@ty]\n")
 				}
 			} else if r.body == 2 {
 				sb.WriteString(ci + "{\n" + ci + "  \"ok\": 1\n" + ci + "}\n")
@@ -252,6 +275,21 @@ func vRender(m vModel) string {
 		}
 		if in.explicit {
 			sb.WriteString(ind + ")\n")
+		}
+	}
+	if m.rpc > 0 {
+		sb.WriteString("URL /rpc\n  Protocol json-rpc-2.0\n  Method doIt" + m.annotation("rpc note") + "\n")
+		if m.rpc == 3 {
+			if m.tag {
+				sb.WriteString("    Tags @t1\n")
+			}
+			sb.WriteString("    Description\n      rpc text\n")
+		}
+		if m.rpc != 3 {
+			sb.WriteString("    Params\n    {\n      \"p\": 1\n    }\n")
+		}
+		if m.rpc != 2 {
+			sb.WriteString("    Result\n    {\n      \"r\": 2\n    }\n")
 		}
 	}
 	if m.grouped {
@@ -282,7 +320,14 @@ func vExpectedDigest(m vModel) []string {
 		if m.infoDescr {
 			d = q("About\nthe API")
 		}
-		add("info", q("The API"), q("1.2"), d)
+		t, v := "", ""
+		if m.infoTitle {
+			t = "The API"
+		}
+		if m.infoVersion {
+			v = "1.2"
+		}
+		add("info", q(t), q(v), d)
 	}
 	if m.server {
 		add("server", "@prod", q("https://api.example.com"), q("production"))
@@ -294,7 +339,7 @@ func vExpectedDigest(m vModel) []string {
 		add("type", "@ty", q("a type"), "jsight", "{\"a\":1}")
 	}
 	if m.typ2 {
-		add("type", "@ty2", q(""), "regex", "/z+/")
+		add("type", "@ty2", q("re type"), "regex", "/z+/")
 	}
 	if m.enum {
 		add("enum", "@en", q(""), "[\"x\",\"y\"]")
@@ -305,7 +350,8 @@ func vExpectedDigest(m vModel) []string {
 	// tags: declared ones first, then path tags in the order of first use
 	type tg struct {
 		name, title, descr string
-		ids                []string
+		ids                []string // HTTP interactions (the catalog groups a tag's interactions by protocol: HTTP first)
+		rpc                []string // JSON-RPC interactions
 	}
 	var tags []*tg
 	find := func(name string) *tg {
@@ -332,6 +378,13 @@ func vExpectedDigest(m vModel) []string {
 		}
 		return 0
 	}
+	if m.rpc > 0 {
+		if m.rpc == 3 && m.tag {
+			find("@t1").rpc = append(find("@t1").rpc, "json-rpc-2.0 doIt /rpc")
+		} else {
+			tags = append(tags, &tg{name: "@rpc", title: "/rpc", descr: "<nil>", rpc: []string{"json-rpc-2.0 doIt /rpc"}})
+		}
+	}
 	for _, in := range m.ints {
 		id := "http " + in.method + " " + in.path
 		if t := tagOf(in); t > 0 {
@@ -349,7 +402,23 @@ func vExpectedDigest(m vModel) []string {
 		t.ids = append(t.ids, id)
 	}
 	for _, t := range tags {
-		add("tag", t.name, q(t.title), t.descr, "["+strings.Join(t.ids, ",")+"]")
+		add("tag", t.name, q(t.title), t.descr, "["+strings.Join(append(append([]string{}, t.ids...), t.rpc...), ",")+"]")
+	}
+	if m.rpc > 0 {
+		tn, desc := "@rpc", "<nil>"
+		if m.rpc == 3 {
+			desc = q("rpc text")
+			if m.tag {
+				tn = "@t1"
+			}
+		}
+		add("jsonrpc", "json-rpc-2.0 doIt /rpc", "json-rpc-2.0 doIt /rpc", "doIt", "tags="+tn, "ann="+q("rpc note"), "desc="+desc)
+		if m.rpc != 3 {
+			add("  params", "{\"p\":1}")
+		}
+		if m.rpc != 2 {
+			add("  result", "{\"r\":2}")
+		}
 	}
 	for _, in := range m.ints {
 		id := "http " + in.method + " " + in.path
@@ -379,7 +448,7 @@ func vExpectedDigest(m vModel) []string {
 			add("  request-body", "binary", "any", "-")
 		case 2:
 			add("  request-body", "json", "jsight", "{\"r\":true}")
-		case 3:
+		case 3, 4:
 			add("  request-headers", "{\"X\":\"v\"}")
 			add("  request-body", "binary", "any", "-")
 		}
@@ -399,6 +468,8 @@ func vExpectedDigest(m vModel) []string {
 				add("    body", "json", "jsight", "-", "", "@ty")
 			case 2:
 				add("    body", "json", "jsight", "{\"ok\":1}", "", "")
+			case 3:
+				add("    body", "json", "jsight", "-", "", "[@ty]")
 			}
 		}
 	}
